@@ -282,10 +282,123 @@ func replay(args []string) {
 	vh.Summary(out, vh.M{"cases": ncases, "estimator_runs": nchecks})
 }
 
+// ------------------------------------------------------------------ vector normal (EstimatorsVec.tla)
+
+type vcase struct {
+	Data []struct {
+		X1 int `json:"x1"`
+		X2 int `json:"x2"`
+		W  int `json:"w"`
+	} `json:"data"`
+	UnitWeights bool  `json:"unit_weights"`
+	Mu          []rat `json:"mu"`
+	Bounded     []struct {
+		Defined bool `json:"defined"`
+		S11     rat  `json:"s11"`
+		S12     rat  `json:"s12"`
+		S22     rat  `json:"s22"`
+	} `json:"bounded"`
+}
+
+func replayVec(args []string) {
+	out := vh.NewOut(args[1])
+	defer out.Close()
+	ncases, nruns := 0, 0
+	err := vh.EachLine(args[0], func(line []byte) error {
+		var c vcase
+		if e := json.Unmarshal(line, &c); e != nil {
+			return fmt.Errorf("bad case %v: %.200s", e, line)
+		}
+		ncases++
+		n := len(c.Data)
+		xs := make([]ConstVector, n)
+		gs := make([]float64, n)
+		for i, o := range c.Data {
+			xs[i] = NewDenseFloat64Vector([]float64{float64(o.X1), float64(o.X2)})
+			gs[i] = math.Log(float64(o.W))
+		}
+		gamma := NewDenseFloat64Vector(gs)
+		modes := []string{"weighted", "batch-weighted"}
+		if c.UnitWeights {
+			modes = append(modes, "unweighted", "batch-unweighted")
+		}
+		for b, smin := range sigmaMins {
+			exp := c.Bounded[b]
+			for _, mode := range modes {
+				nruns++
+				report := func(what string, e, g interface{}) {
+					vh.Mismatch(out, vh.M{"engine": "estim", "family": "vector-normal", "mode": mode, "what": what},
+						vh.M{"mode": "closed-form-vec", "case": c, "sigma_min": smin, "expected": e, "observed": g})
+				}
+				est, err := vectorEstimator.NewNormalEstimator([]float64{0.5, 0.5}, []float64{2, 0, 0, 2}, smin)
+				if err != nil {
+					report("constructor_error", "estimator", err.Error())
+					continue
+				}
+				var pdf VectorPdf
+				msg := vh.Try(func() {
+					switch mode {
+					case "weighted":
+						err = est.EstimateOnData(xs, gamma, ThreadPool{})
+					case "unweighted":
+						err = est.EstimateOnData(xs, nil, ThreadPool{})
+					default:
+						if err = est.Initialize(ThreadPool{}); err == nil {
+							for i := range xs {
+								var g ConstScalar
+								if mode == "batch-weighted" {
+									g = ConstFloat64(gs[i])
+								}
+								if err = est.NewObservation(xs[i], g, ThreadPool{}); err != nil {
+									break
+								}
+							}
+						}
+					}
+					if err == nil {
+						pdf, err = est.GetEstimate()
+					}
+				})
+				if msg != "" {
+					if exp.Defined {
+						report("panic", "estimate", msg)
+					}
+					continue
+				}
+				if !exp.Defined {
+					// exactly singular covariance: the maximiser does not exist; rounding decides whether
+					// the library notices - nothing is required
+					continue
+				}
+				if err != nil {
+					report("error", "estimate", err.Error())
+					continue
+				}
+				pv := pdf.GetParameters()
+				want := []float64{c.Mu[0].f(), c.Mu[1].f(), exp.S11.f(), exp.S12.f(), exp.S12.f(), exp.S22.f()}
+				ok := pv.Dim() == 6
+				for i := 0; ok && i < 6; i++ {
+					if !near(pv.Float64At(i), want[i]) {
+						ok = false
+					}
+				}
+				if !ok {
+					report("parameters", want, fmt.Sprint(pv))
+				}
+			}
+		}
+		return nil
+	})
+	if err != nil {
+		vh.Fatal(err)
+	}
+	vh.Summary(out, vh.M{"cases": ncases, "estimator_runs": nruns})
+}
+
 // ------------------------------------------------------------------ EM trajectories
 
 const scaleF = 1e6
-const maxIterations = 3000 // an EM run that is still iterating after this many hook calls is cut off and reported
+const maxIterations = 1500 // an EM run that is still iterating after this many hook calls is cut off by the recorder
 
 func sc(x float64) int {
 	if math.IsNaN(x) || math.IsInf(x, 0) || math.Abs(x) > 2000 {
@@ -432,6 +545,53 @@ func categoricals(rng *rand.Rand) []ScalarEstimator {
 	return []ScalarEstimator{e1, e2}
 }
 
+func vmixScenario() emScenario {
+	return emScenario{"vmix-normal2d", func(rng *rand.Rand, epsilon float64, maxSteps int, emit func(emev)) (float64, error) {
+		n := 8 + rng.Intn(20)
+		xs := make([]ConstVector, n)
+		for i := range xs {
+			c := float64(2*(i%2)) - 1
+			xs[i] = NewDenseFloat64Vector([]float64{math.Round((2*c+rng.NormFloat64())*16) / 16, math.Round((c+rng.NormFloat64())*16) / 16})
+		}
+		var est *vectorEstimator.MixtureEstimator
+		hook := generic.EmHook{Value: func(m generic.BasicMixture, i int, l, e float64) {
+			d, _ := est.GetEstimate()
+			emit(emev{E: "hook", I: i, Nan: math.IsNaN(l), Lik: sc(l), Eps: sc(e), Recomp: sc(vectorLL(d, xs))})
+		}}
+		mk := func(mu float64) VectorEstimator {
+			v, err := vectorEstimator.NewNormalEstimator([]float64{mu, mu / 2}, []float64{2, 0, 0, 2}, 1e-2)
+			if err != nil {
+				panic(err)
+			}
+			return v
+		}
+		var err error
+		est, err = vectorEstimator.NewMixtureEstimator([]float64{1, 1 + rng.Float64()}, []VectorEstimator{mk(-1 - rng.Float64()), mk(1 + rng.Float64())}, epsilon, maxSteps, hook)
+		if err != nil {
+			return 0, err
+		}
+		if err := est.EstimateOnData(xs, nil, ThreadPool{}); err != nil {
+			return 0, err
+		}
+		d, _ := est.GetEstimate()
+		return vectorLL(d, xs), nil
+	}}
+}
+
+// HMM whose emissions are themselves mixtures: the inner EM runs one nested step per outer iteration
+func nestedMixtures(rng *rand.Rand) []ScalarEstimator {
+	mk := func(a, b float64) ScalarEstimator {
+		e1, _ := scalarEstimator.NewNormalEstimator(a, 1+rng.Float64(), 1e-2)
+		e2, _ := scalarEstimator.NewNormalEstimator(b, 1+rng.Float64(), 1e-2)
+		m, err := scalarEstimator.NewMixtureEstimator([]float64{1, 1}, []ScalarEstimator{e1, e2}, 1e-8, -1)
+		if err != nil {
+			panic(err)
+		}
+		return m
+	}
+	return []ScalarEstimator{mk(-3, -1), mk(1, 3)}
+}
+
 func emScenarios() []emScenario {
 	return []emScenario{
 		mixtureScenario("smix-normal", normals, func(r *rand.Rand) []float64 { return normalData(r, 10+r.Intn(30), 2) }),
@@ -442,6 +602,8 @@ func emScenarios() []emScenario {
 		hmmScenario("vhmm-normal", normals, func(r *rand.Rand) []float64 { return normalData(r, 5+r.Intn(12), 2) }, nil, nil),
 		hmmScenario("vhmm-categorical-startfinal", categoricals, func(r *rand.Rand) []float64 { return countData(r, 5+r.Intn(12), 2) }, []int{0}, []int{0}),
 		hmmScenario("vhmm-poisson", poissons, func(r *rand.Rand) []float64 { return countData(r, 5+r.Intn(12), 8) }, nil, nil),
+		vmixScenario(),
+		hmmScenario("vhmm-nested-mixture", nestedMixtures, func(r *rand.Rand) []float64 { return normalData(r, 6+r.Intn(12), 2) }, nil, nil),
 	}
 }
 
@@ -503,13 +665,13 @@ func record(args []string) {
 				}
 			})
 		})
-		if msg != "" {
-			what := "panic"
-			if len(evs) > maxIterations {
-				what = "no_convergence"
-				evs = append(evs[:8], evs[len(evs)-8:]...)
-			}
-			vh.Mismatch(out, vh.M{"engine": "estim", "what": what, "scenario": s.name},
+		if msg != "" && len(evs) > maxIterations {
+			// still iterating (slow convergence is legitimate): the run is cut off by the recorder;
+			// the recorded prefix is validated, the "abort" event tells the specification that the
+			// run was ended from outside
+			evs = append(evs[:maxIterations], emev{E: "abort"})
+		} else if msg != "" {
+			vh.Mismatch(out, vh.M{"engine": "estim", "what": "panic", "scenario": s.name},
 				vh.M{"mode": "em", "scenario": s.name, "seed": rseed, "eps_index": epsIdx, "maxsteps": maxSteps, "panic": msg})
 			evs = append(evs, emev{E: "return", Err: true})
 		} else {
@@ -538,6 +700,8 @@ func main() {
 	switch os.Args[1] {
 	case "replay":
 		replay(os.Args[2:])
+	case "replayvec":
+		replayVec(os.Args[2:])
 	case "record":
 		record(os.Args[2:])
 	default:
